@@ -175,8 +175,9 @@ def check_sum(run, S, name, spec, kw):
 def run(tier):
     run = Run(PROP, tier, 'other')
     h = build()
+    mono_ = h.monomorphise(['f32', 'f64'], bound='<S: BaseFloat>', kinds=None, method_syntax=True, soft=True)   # concrete scalar types, both spellings: what a user of f32 / f64 really gets
     S, inv, meta = facts.extract(PROP, h.src())
-    report_dropped(run, meta)
+    report_dropped(run, meta, h)
     run_specs(run, S, h, custom={'convert': check_convert, 'full_turn': check_full_turn, 'range': check_range, 'sum': check_sum})
     run.floor('roots', len(run.roots), len(h.specs))
     return run.finish(
